@@ -20,7 +20,7 @@ PROP = "C17"
 
 TOKEN_RE = re.compile(r'''
     b?"(?:[^"\\]|\\.)*" | b?'(?:[^'\\]|\\.)' | '[A-Za-z_][A-Za-z0-9_]* |
-    \d[A-Za-z0-9_.]* | r\#[A-Za-z_][A-Za-z0-9_]* | [A-Za-z_][A-Za-z0-9_]* |
+    \d[A-Za-z0-9_.]* | r\#[^\W\d]\w* | [^\W\d]\w* |
     :: | -> | => | == | != | <= | >= | && | \|\| | \.\. | [()\[\]{}] | \S
 ''', re.X)
 
@@ -31,7 +31,9 @@ POOL = [",", "=", "unsafe", "*", "true", "false", '""', '"x y"', '"0"', '"-"', "
         "Into", "::", "std::fmt::Debug", "::core::fmt::Debug", "!", "?", "#", "&", "'a", "<", ">", "..", "r#type",
         "_", "self", "Self", "crate", "super", "dyn", "impl", "fn", "where", "for", "u8", "T", "Vec<T>", "&'static str",
         "T: Clone", "T: ?Sized", "'a: 'b", "for<'x> &'x T: Clone", "|", "+", "-", "/", "%", "^", "@", "$", "~", ";",
-        ":", ".", "=>", "->", "async", "await", "mut", "ref", "box", "union", "macro_rules", "r#unsafe", "\\u{0}"]
+        ":", ".", "=>", "->", "async", "await", "mut", "ref", "box", "union", "macro_rules", "r#unsafe", "\\u{0}",
+        # identifiers and literals outside ASCII (byte offsets into their printed form are not character offsets)
+        "Имя", "名前", "αβ", "é", '"Имя"', '"名前: Clone"', "'é'", '"é"', "Ж", "r#Имя"]
 POOL = [p for p in POOL if p != "\\u{0}"]
 GROUPS = [("(", ")"), ("[", "]"), ("{", "}")]
 
@@ -276,6 +278,82 @@ FORMS = ["{X}", "{X}()", "{X}[]", "{X}{{}}", "{X} = y", "{X} = \"y\"", "{X} = 1"
 ALLT = ["Debug", "Clone", "Copy", "PartialEq", "Eq", "PartialOrd", "Ord", "Hash", "Default", "Deref", "DerefMut", "Into"]
 
 
+def unicode_forms():
+    """non-ASCII names in every position that takes a user-chosen name or string"""
+    out = []
+    items = [("struct", "struct S { a: u8 }"), ("tuple", "struct S(u8);"), ("enum", "enum E { A { a: u8 }, B(u8) }"),
+             ("union", "union U { a: u8 }"), ("unit", "struct S;")]
+    entries = []
+    for t in ["Debug", "Clone", "PartialEq", "PartialOrd", "Ord", "Hash", "Default", "Eq", "Copy", "Deref", "Into"]:
+        for v in ["Имя", "名前", '"Имя"', '"é"', "r#Имя", "é"]:
+            entries += ["%s = %s" % (t, v), "%s(name = %s)" % (t, v), "%s(name(%s))" % (t, v), "%s(rename = %s)" % (t, v),
+                        "%s(method = %s)" % (t, v), "%s(method(%s))" % (t, v), "%s(bound = %s)" % (t, v), "%s(%s)" % (t, v),
+                        "%s(unsafe, name = %s)" % (t, v), "%s(rank = %s)" % (t, v), "%s(expression = %s)" % (t, v)]
+    k = 0
+    for e in entries:
+        kind, item = items[k % len(items)]
+        out.append(("u%d" % k, "#[derive(Educe)] #[educe(%s)] %s" % (e, item)))
+        if kind != "union":
+            # unions have their own diagnostics builders (the `unsafe` suggestions)
+            out.append(("u%du" % k, "#[derive(Educe)] #[educe(%s)] union U { a: u8 }" % e))
+        k += 1
+        if k % 3 == 0:
+            out.append(("u%df" % k, "#[derive(Educe)] #[educe(Debug, Clone, PartialEq, PartialOrd, Hash, Default)] "
+                                    "struct S { #[educe(%s)] a: u8, b: u8 }" % e))
+    return out
+
+
+MACRO_ARGS_TY = ["u16", "&'static str", "[u8; 2]", "::core::option::Option<u8>", "&'static [u8]", "(u8, u16)",
+                 "&'static &'static u8", "::std::boxed::Box<u8>", "fn() -> u8", "&'static dyn ::core::fmt::Debug"]
+MACRO_ARGS_EXPR = [("1 + 2", "7", "Foo"), ("-3", "5", "bar"), ("{ 4 }", "0x10", "r#type"), ("u64::MAX", "1_000", "Имя"),
+                   ("(9)", "-1", "x"), ("if true { 1 } else { 2 }", "18446744073709551616", "Self_")]
+
+
+def macro_cases():
+    """derive inputs produced by macro_rules!: `ty`, `expr`, `literal`, `path` and `meta` fragments reach the derive as
+    None-delimited groups, which no text can express.  Compiled through rustc only."""
+    out = []
+    for i, t in enumerate(MACRO_ARGS_TY):
+        out.append(("mt%d" % i, """
+macro_rules! mk { ($t:ty) => {
+    #[derive(::educe::Educe)] #[educe(Deref, DerefMut)] pub struct A<'a> { #[educe(Deref, DerefMut)] pub f: &'a mut $t, pub g: u8 }
+    #[derive(::educe::Educe)] #[educe(Deref)] pub enum B<'a> { V(&'a $t), W { #[educe(Deref)] x: &'a $t, y: u8 } }
+    #[derive(::educe::Educe)] #[educe(Into($t))] pub struct C { pub f: $t, pub g: u8 }
+    #[derive(::educe::Educe)] #[educe(Into(&'a $t), Into($t))] pub enum D<'a> { V(&'a $t, $t), W { r: &'a $t, #[educe(Into($t))] s: $t, t: $t } }
+    #[derive(::educe::Educe)] #[educe(Debug, Clone, PartialEq, PartialOrd, Hash)] pub struct E { pub f: $t, #[educe(Debug(ignore))] pub g: $t }
+    #[derive(::educe::Educe)] #[educe(Debug(bound($t: ::core::fmt::Debug)), Clone(bound = false), Deref)] pub struct F(pub $t);
+    #[derive(::educe::Educe)] #[educe(Debug(unsafe), PartialEq(unsafe), Hash(unsafe), Clone, Copy, Default)] pub union G { pub f: $t, pub g: u8 }
+} }
+mk!(%s);
+""" % t))
+    for i, (e, l, n) in enumerate(MACRO_ARGS_EXPR):
+        out.append(("me%d" % i, """
+macro_rules! mk { ($e:expr, $l:literal, $n:ident) => {
+    #[derive(::educe::Educe)] #[educe(Default, Debug(name = $n), PartialEq, PartialOrd)]
+    pub struct A { #[educe(Default = $l, PartialOrd(rank = $l))] pub a: u64, #[educe(Default(expression = $e), Debug(name = $n))] pub b: u64 }
+    #[derive(::educe::Educe)] #[educe(Default(expression = B::V($e as u64)), Debug = $n)]
+    pub enum B { V(#[educe(Debug(name = $n))] u64), #[educe(Debug(name = $n))] W }
+    #[derive(::educe::Educe)] #[educe(Default(expr($e)), Debug(name($n)))] pub struct C(#[educe(Default(expr($l)))] pub u64);
+    #[derive(::educe::Educe)] #[educe(Debug($n))] pub struct D;
+} }
+mk!(%s, %s, %s);
+""" % (e, l, n)))
+    for i, (p, m) in enumerate([("::core::fmt::Debug::fmt", "Debug(name = X)"), ("fmt_it", "Debug"), ("self::fmt_it", "Debug(name = false)"),
+                                ("Имя", "Debug = Y"), ("fmt_it", "Clone(bound = false)"), ("fmt_it", "Hash(unsafe)")]):
+        out.append(("mp%d" % i, """
+pub fn fmt_it<X>(_x: &X, f: &mut ::core::fmt::Formatter<'_>) -> ::core::fmt::Result { f.write_str("x") }
+macro_rules! mk { ($p:path, $m:meta, $b:path) => {
+    #[derive(::educe::Educe)] #[educe(Debug)] pub struct A { #[educe(Debug(method($p)))] pub a: u8, #[educe(Debug(method = $p))] pub b: u8 }
+    #[derive(::educe::Educe)] #[educe($m)] pub struct B { pub a: u8 }
+    #[derive(::educe::Educe)] #[educe(Debug, $m)] pub enum C { V { a: u8 }, W(u8) }
+    #[derive(::educe::Educe)] #[educe(Clone(bound(T: $b)), Debug(bound(T: $b)))] pub struct D<T> { pub a: T }
+    #[derive(::educe::Educe)] #[educe($m)] pub union E { pub a: u8 }
+} }
+mk!(%s, %s, ::core::clone::Clone);
+""" % (p, m)))
+    return out
+
+
 def systematic_forms():
     """every trait x shape x attribute position x a list of well- and ill-formed argument shapes"""
     out = []
@@ -336,7 +414,7 @@ def gen_inputs(seed, n):
                                                                      max_variants=3))
         base.append(S.render(td, rng, extras=False).replace("::educe::Educe", "Educe"))
     out = [("h%d" % i, t) for i, t in enumerate(HAND)] + [("h" + cid, t) for cid, t in systematic_forms()] + \
-        [("h" + cid, t) for cid, t in rank_edge_inputs()]
+        [("h" + cid, t) for cid, t in rank_edge_inputs()] + [("h" + cid, t) for cid, t in unicode_forms()]
     for i in range(n):
         rng = rng_for(seed, PROP, "mut", i)
         out.append(("m%d" % i, mutate_text(rng, rng.choice(base))))
@@ -438,6 +516,9 @@ def main(tier, seed, scale=1.0):
     rng.shuffle(rest)
     d1_ids = cand_ids + [c for c in rest if c.startswith("h")] + [c for c in rest if not c.startswith("h")][:n_d1]
     d1_cases = [(c, texts[c]) for c in d1_ids]
+    for cid, t in macro_cases():
+        texts[cid] = t
+        d1_cases.append((cid, t))
     confirmed = set()
     for release in (False, True):
         per, spanless, crashed, progs, err = d1_batch("c17", d1_cases, release)
